@@ -74,21 +74,84 @@ fn mk_ctx(root: &str, tier: Tier, seed: u64, exclusions: BTreeSet<String>) -> pr
   props::Ctx { tier, seed, root: root.to_string(), exclusions: Arc::new(exclusions), shards }
 }
 
-/// returns Ok(report) of re-running a replay file
-fn replay_report(ctx: &props::Ctx, path: &str) -> Result<(ReplayFile, Report), String> {
-  let text = std::fs::read_to_string(path).map_err(|e| format!("{}: {}", path, e))?;
-  let rf: ReplayFile = serde_json::from_str(&text).map_err(|e| format!("{}: {}", path, e))?;
+fn replay_value(ctx: &props::Ctx, rf: &ReplayFile) -> Result<Report, String> {
   for p in props::all() {
     if p.id == rf.property {
       for s in &p.subs {
         if s.name == rf.check {
-          let rep = (s.replay)(ctx, &rf.case)?;
-          return Ok((rf, rep));
+          return (s.replay)(ctx, &rf.case);
         }
       }
     }
   }
-  Err(format!("{}: unknown property/check {}/{}", path, rf.property, rf.check))
+  Err(format!("unknown property/check {}/{}", rf.property, rf.check))
+}
+
+/// returns Ok(report) of re-running a replay file
+fn replay_report(ctx: &props::Ctx, path: &str) -> Result<(ReplayFile, Report), String> {
+  let text = std::fs::read_to_string(path).map_err(|e| format!("{}: {}", path, e))?;
+  let rf: ReplayFile = serde_json::from_str(&text).map_err(|e| format!("{}: {}", path, e))?;
+  let rep = replay_value(ctx, &rf).map_err(|e| format!("{}: {}", path, e))?;
+  Ok((rf, rep))
+}
+
+/// replace every field called "sched" in a case by the given schedule; false if none
+fn set_sched(v: &mut serde_json::Value, sched: &serde_json::Value) -> bool {
+  let mut found = false;
+  match v {
+    serde_json::Value::Object(m) => {
+      for (k, x) in m.iter_mut() {
+        if k == "sched" {
+          *x = sched.clone();
+          found = true;
+        } else if set_sched(x, sched) {
+          found = true;
+        }
+      }
+    }
+    serde_json::Value::Array(a) => {
+      for x in a.iter_mut() {
+        if set_sched(x, sched) {
+          found = true;
+        }
+      }
+    }
+    _ => {}
+  }
+  found
+}
+
+/// Does the probe of an open known finding still fail? A probe with a schedule is a
+/// *scenario*: the stored schedule is tried first, then a fixed family of 600 schedules
+/// (the exact interleaving that fails moves whenever any scheduling point is added or
+/// removed anywhere, the race itself does not).
+fn probe_still_fails(ctx: &props::Ctx, path: &str) -> Result<bool, String> {
+  let (rf, rep) = replay_report(ctx, path)?;
+  if rep.fail.is_some() {
+    return Ok(true);
+  }
+  let mut x: u64 = 0x9E3779B97F4A7C15;
+  for i in 0..600u64 {
+    x = x.wrapping_mul(6364136223846793005).wrapping_add(1442695040888963407);
+    let pct: u64 = [10, 25, 50][(i % 3) as usize];
+    let seed: u64 = x | 1;
+    let sched = serde_json::json!({
+      "overrides": [],
+      "walk": [seed, pct],
+      "hash_seed": i % 4,
+      "notify_lifo": i % 2 == 1,
+    });
+    let mut rf2 = rf.clone();
+    if !set_sched(&mut rf2.case, &sched) {
+      return Ok(false);
+    }
+    if let Ok(rep) = replay_value(ctx, &rf2) {
+      if rep.fail.is_some() {
+        return Ok(true);
+      }
+    }
+  }
+  Ok(false)
 }
 
 fn run_replay(root: &str, path: &str, verbose: bool) -> i32 {
@@ -132,8 +195,8 @@ fn run_check(root: &str, pid: &str, tier: Tier, seed: u64, only: Option<String>)
   let probe_ctx = mk_ctx(root, tier, seed, BTreeSet::new());
   for k in known.findings.iter().filter(|k| k.status == "open") {
     let still = match &k.probe {
-      Some(p) => match replay_report(&probe_ctx, &format!("{}/{}", root, p)) {
-        Ok((_, rep)) => rep.fail.is_some(),
+      Some(p) => match probe_still_fails(&probe_ctx, &format!("{}/{}", root, p)) {
+        Ok(b) => b,
         Err(e) => {
           eprintln!("known finding {}: probe unusable: {}", k.id, e);
           false
